@@ -28,18 +28,27 @@ def ticks(x):
     return int(r) if v == r else BADNUM
 
 
+def qv(x):
+    """registered variable in quarter units"""
+    try:
+        v = x * 4
+        return int(round(v)) if v == round(v) else -777777
+    except Exception:
+        return -888888
+
+
 def gen_shape(rng):
     k = rng.choice([1, 2, 3, 3, 4])
     names = ["s%d" % i for i in range(k)]
     durOf, nextOf = {}, {}
     for s in names:
         if rng.random() < 0.7:
-            durOf[s] = rng.choice([1, 2, 3, 5, 8])
+            durOf[s] = rng.choice([1, 2, 3, 5, 8, 64, 128])
             nextOf[s] = rng.choice(["none"] + names)
         else:
             durOf[s] = -1
             nextOf[s] = "none"
-    return {"states": names, "first": rng.choice(names), "durOf": durOf, "nextOf": nextOf, "var0": rng.randint(1, 5)}
+    return {"states": names, "first": rng.choice(names), "durOf": durOf, "nextOf": nextOf, "var0": rng.choice([1, 3, 4, 8, 12, 20])}
 
 
 class Mode:
@@ -65,15 +74,18 @@ class Mode:
             first = s == shape["first"]
             if shape["durOf"][s] != -1:
                 nx = shape["nextOf"][s]
-                ns[s] = timed_state(duration=shape["durOf"][s] / 64.0, next_state=(None if nx == "none" else nx),
-                                    first=first)(fn)
+                d = shape["durOf"][s]
+                # whole seconds are written as int literals (duration=2), as user code does
+                dur = d // 64 if d % 64 == 0 else d / 64.0
+                ns[s] = timed_state(duration=dur, next_state=(None if nx == "none" else nx), first=first)(fn)
             elif first:
                 ns[s] = state(first=True)(fn)
             else:
                 ns[s] = state(fn)
 
         def initialize(self_):
-            self_.register_sd_var("v", shape["var0"])
+            v0 = shape["var0"]
+            self_.register_sd_var("v", v0 // 4 if v0 % 4 == 0 else v0 / 4.0)
         ns["initialize"] = initialize
         cls = type("Gen" + self.name, (StatefulAutonomous,), ns)
         self.obj = cls()
@@ -85,7 +97,7 @@ class Mode:
                         "stm": ticks(kw["state_tm"]) if "state_tm" in kw else UNOBS,
                         "ic": (1 if kw["initial_call"] is True else 0 if kw["initial_call"] is False else 7)
                         if "initial_call" in kw else -1,
-                        "v": int(getattr(obj, "v", -1))})
+                        "v": qv(getattr(obj, "v", -1))})
         a = self.action
         if a and a["act"] == "ns":
             obj.next_state(a["s"])
@@ -99,7 +111,7 @@ class Mode:
         if k == "enable":
             o.on_enable()
             durs = {s: ticks(getattr(o, s + "_duration")) for s in self.shape["states"] if self.shape["durOf"][s] != -1}
-            return {"cb": [], "dur": durs, "v": int(o.v)}
+            return {"cb": [], "dur": durs, "v": qv(o.v)}
         if k == "disable":
             o.on_disable()
             return {"cb": []}
@@ -107,7 +119,7 @@ class Mode:
             self.table.putNumber("%s\\%s_duration" % (self.name, ev["s"]), ev["d"] / 64.0)
             return {"cb": []}
         if k == "varw":
-            self.table.putNumber("%s\\v" % self.name, ev["v"])
+            self.table.putNumber("%s\\v" % self.name, ev["v"] / 4.0)
             return {"cb": []}
         if k == "iter":
             self.action = ev
@@ -135,12 +147,12 @@ def random_events(rng, shape, n):
             evs.append({"e": "disable"})
             continue
         if r < 0.11 and timed:
-            evs.append({"e": "sdw", "s": rng.choice(timed), "d": rng.choice([1, 2, 4, 6])})
+            evs.append({"e": "sdw", "s": rng.choice(timed), "d": rng.choice([1, 2, 4, 6, 40, 64, 100, 176])})
             continue
         if r < 0.13:
-            evs.append({"e": "varw", "v": rng.randint(1, 9)})
+            evs.append({"e": "varw", "v": rng.choice([1, 2, 3, 4, 6, 8, 11, 16])})
             continue
-        clk += period if style == "steady" and rng.random() < 0.9 else rng.choice([0, 1, 1, 2, 3, 5, 8, 13, 30])
+        clk += period if style == "steady" and rng.random() < 0.9 else rng.choice([0, 1, 1, 2, 3, 5, 8, 13, 30, 70])
         a = rng.random()
         if a < 0.10:
             act, s = "ns", rng.choice(shape["states"])
